@@ -117,9 +117,7 @@ func (h *ConsistentHash) Get(v any) (any, bool) {
 	case 1:
 		return nodes[0], true
 	default:
-		innerIndex := h.hashFunc([]byte(innerRepr(v)))
-		pos := int(innerIndex % uint64(len(nodes)))
-		return nodes[pos], true
+		return h.pickNode(nodes, v), true
 	}
 }
 
@@ -136,32 +134,68 @@ func (h *ConsistentHash) Remove(node any) {
 
 	for i := 0; i < h.replicas; i++ {
 		hash := h.hashFunc([]byte(nodeRepr + strconv.Itoa(i)))
+		// the hash might belong to another node only, e.g. "node1"+"10" and "node11"+"0"
+		// are the same virtual node key, and node1 might have fewer than h.replicas replicas,
+		// so the key is removed only if the given node really sits on it.
+		if !h.removeRingNode(hash, nodeRepr) {
+			continue
+		}
+
 		index := sort.Search(len(h.keys), func(i int) bool {
 			return h.keys[i] >= hash
 		})
 		if index < len(h.keys) && h.keys[index] == hash {
 			h.keys = append(h.keys[:index], h.keys[index+1:]...)
 		}
-		h.removeRingNode(hash, nodeRepr)
 	}
 
 	h.removeNode(nodeRepr)
 }
 
-func (h *ConsistentHash) removeRingNode(hash uint64, nodeRepr string) {
-	if nodes, ok := h.ring[hash]; ok {
-		newNodes := nodes[:0]
-		for _, x := range nodes {
-			if repr(x) != nodeRepr {
-				newNodes = append(newNodes, x)
-			}
-		}
-		if len(newNodes) > 0 {
-			h.ring[hash] = newNodes
-		} else {
-			delete(h.ring, hash)
+// pickNode picks the node for v from the nodes that share one virtual node key,
+// by the highest hash of (v, node), so the choice doesn't depend on the order
+// in which the nodes were added, and adding or removing one of the nodes
+// only moves the keys to or from that node.
+func (h *ConsistentHash) pickNode(nodes []any, v any) any {
+	inner := innerRepr(v)
+	var picked any
+	var pickedRepr string
+	var max uint64
+	for _, node := range nodes {
+		nodeRepr := repr(node)
+		score := h.hashFunc([]byte(inner + ":" + nodeRepr))
+		if picked == nil || score > max || (score == max && nodeRepr < pickedRepr) {
+			picked, pickedRepr, max = node, nodeRepr, score
 		}
 	}
+
+	return picked
+}
+
+// removeRingNode removes the node from the nodes on the given virtual node key,
+// and returns if the node was there.
+func (h *ConsistentHash) removeRingNode(hash uint64, nodeRepr string) bool {
+	nodes, ok := h.ring[hash]
+	if !ok {
+		return false
+	}
+
+	var removed bool
+	newNodes := nodes[:0]
+	for _, x := range nodes {
+		if !removed && repr(x) == nodeRepr {
+			removed = true
+			continue
+		}
+		newNodes = append(newNodes, x)
+	}
+	if len(newNodes) > 0 {
+		h.ring[hash] = newNodes
+	} else {
+		delete(h.ring, hash)
+	}
+
+	return removed
 }
 
 func (h *ConsistentHash) addNode(nodeRepr string) {
